@@ -97,8 +97,6 @@ int iv_event_register(struct iv_event *this)
 {
 	struct iv_state *st = iv_get_state();
 
-	st->numobjs++;
-
 	if (!st->event_count++ && is_mt_app()) {
 		if (!iv_event_use_event_raw && event_rx_on(st))
 			iv_event_use_event_raw = 1;
@@ -113,6 +111,8 @@ int iv_event_register(struct iv_event *this)
 			}
 		}
 	}
+
+	st->numobjs++;
 
 	this->owner = st;
 
